@@ -160,8 +160,11 @@ def rules(ctx):
                  "operands only combined with + - * **" if not bad else
                  "`%s` writes coefficients by hand instead of using the model arithmetic (terms that collapse onto one key "
                  "are overwritten, idempotence x*x = x is bypassed)" % src(bad[0])[:60])
-    from .C05 import imul_rules
+    from .C05 import imul_rules, derived_from_copy
     imul_rules(ctx, 'R07.5')
+    derived_from_copy(ctx, 'R07.5')
+    from . import C02
+    C02.record_not_shared(ctx, 'R07.1')
     ctx.rule('R07.7', "operands are told apart only as model (dict) versus label: any hashable, tuples included, is a label", floor=8)
     for name, fn in fns.items():
         bad = []
